@@ -40,7 +40,8 @@ Theorem c03_async_eq_sync_twins :
   /\ (forall rp rd name a b, fs_get_source rp rd name = Ok a ->
         fs_get_source_async rp rd name = Ok b -> fs_source_same a b)
   /\ (forall rp rd name, is_ok (fs_get_source_async rp rd name) = is_ok (fs_get_source rp rd name))
-  /\ (forall sm p m, fs_uptodate_async sm p m = fs_uptodate sm p m).
+  /\ (forall sm p m, fs_uptodate_async sm p m = fs_uptodate sm p m)
+  /\ (forall rp sm name p m, fs_is_current_async rp sm name p m = fs_is_current rp sm name p m).
 Proof. exact async_eq_sync_twins. Qed.
 Print Assumptions c03_async_eq_sync_twins.
 
